@@ -9,6 +9,7 @@ package fasthttp
 // sleep). The hook records, per connection, the state and the number of input bytes the connection had delivered.
 
 import (
+	"bytes"
 	"encoding/json"
 	"errors"
 	"fmt"
@@ -49,6 +50,7 @@ type c14Case struct {
 	Entry int    `json:"entry"` // 0 ServeConn, 1 Serve over a fake listener
 	RMU   bool   `json:"reduce_memory_usage"`
 	PerIP bool   `json:"max_conns_per_ip_1"`
+	Conc  int    `json:"concurrency"` // Server.Concurrency (0 = default)
 	Segs  []int  `json:"segs"`
 	End   int    `json:"end"`
 	Chunk int    `json:"chunk"`
@@ -64,7 +66,7 @@ func (cs c14Case) String() string {
 	if cs.Entry == 1 {
 		e = "Serve"
 	}
-	return fmt.Sprintf("%s rmu=%v perip=%v [%s] then %s, %s", e, cs.RMU, cs.PerIP, strings.Join(n, " "), c14Ends[cs.End], c14Chunks[cs.Chunk])
+	return fmt.Sprintf("%s rmu=%v perip=%v concurrency=%d [%s] then %s, %s", e, cs.RMU, cs.PerIP, cs.Conc, strings.Join(n, " "), c14Ends[cs.End], c14Chunks[cs.Chunk])
 }
 
 type c14Ev struct {
@@ -248,6 +250,7 @@ func c14Run(r *vrt.R, cs c14Case) {
 	if cs.PerIP {
 		w.s.MaxConnsPerIP = 1
 	}
+	w.s.Concurrency = cs.Conc
 	cs.Text = cs.String()
 	viol := func(sig, what string) {
 		r.Violation(sig, what+" — "+cs.Text, cs)
@@ -366,8 +369,20 @@ func c14Judge(r *vrt.R, cs c14Case, c *c14Conn, evs []c14Ev, starts []int, viol 
 	}
 	out := c.Conn.Output()
 	r.Add("connections_judged", 1)
+	// a connection the server turned away: it only got the canned 429 (per-IP limit) / 503 (Concurrency limit) answer
+	turnedAway := c.name == "B" && bytes.Count(out, []byte("HTTP/1.1 ")) == 1 && ((cs.PerIP && bytes.HasPrefix(out, []byte("HTTP/1.1 429 "))) ||
+		(cs.Conc == 1 && bytes.HasPrefix(out, []byte("HTTP/1.1 503 "))))
+	if turnedAway {
+		r.Add("connections_turned_away_by_a_limit", 1)
+		if bytes.HasPrefix(out, []byte("HTTP/1.1 503 ")) {
+			r.Add("connections_turned_away_by_concurrency_limit", 1)
+		}
+		if len(evs) > 0 {
+			r.Add("connections_turned_away_with_nonempty_callback_sequence", 1)
+		}
+	}
 	if len(evs) == 0 {
-		rejected := cs.PerIP && c.name == "B" && strings.HasPrefix(string(out), "HTTP/1.1 429 ")
+		rejected := turnedAway
 		if rejected {
 			r.Add("connections_rejected_before_tracking", 1)
 		} else {
@@ -436,6 +451,7 @@ func c14Hash(cs c14Case) uint64 {
 	}
 	mix(cs.End)
 	mix(cs.Chunk)
+	mix(cs.Conc + 20)
 	for _, s := range cs.Segs {
 		mix(s)
 	}
@@ -460,8 +476,8 @@ func TestVerif_C14(t *testing.T) {
 		names = append(names, s.Name)
 	}
 	r.Rule(fmt.Sprintf("every connection history = <=%d request segments of %v (a terminal segment ends the history; 'second-conn' makes the handler bring up a second connection from the same IP, "+
-		"rejected when MaxConnsPerIP=1) followed by client behaviour %v, delivered as %v, x ReduceMemoryUsage x MaxConnsPerIP{0,1} x entry{ServeConn, Serve over a fake listener}; "+
-		"oracle per connection: callback sequence empty (only for a connection answered 429 before tracking) or New (Active Idle)* Active? (Closed|Hijacked), nothing after the terminal state, "+
+		"turned away with 429 when MaxConnsPerIP=1 and with 503 when Server.Concurrency=1) followed by client behaviour %v, delivered as %v, x ReduceMemoryUsage x MaxConnsPerIP{0,1} x Concurrency{default,1,2; varied for histories with a second connection} x entry{ServeConn, Serve over a fake listener}; "+
+		"oracle per connection: callback sequence empty (only for a connection turned away with the canned 429/503 before tracking) or New (Active Idle)* Active? (Closed|Hijacked), nothing after the terminal state, "+
 		"and the k-th StateActive only after the connection's Read delivered >=1 byte of the k-th request; non-trivial: histories with at least one StateActive or a rejected connection",
 		maxSegs, names, c14Ends, c14Chunks))
 	r.Assume("sequential part only: one connection at a time plus one nested second connection; interleavings of concurrent connections belong to the mc profile",
@@ -493,6 +509,14 @@ func TestVerif_C14(t *testing.T) {
 	rec(nil)
 	var cases []c14Case
 	for _, h := range hist {
+		// Server.Concurrency only matters once a second connection shows up: 1 = the second connection exceeds the
+		// limit (ServeConn: ErrConcurrencyLimit + 503; Serve: worker pool full + 503), 2 = it is just within the limit
+		concs := []int{0}
+		for _, sg := range h {
+			if c14Segs[sg].Name == "second-conn" {
+				concs = []int{0, 1, 2}
+			}
+		}
 		for entry := 0; entry < 2; entry++ {
 			for _, rmu := range []bool{false, true} {
 				for _, perip := range []bool{false, true} {
@@ -501,7 +525,9 @@ func TestVerif_C14(t *testing.T) {
 							if len(h) == 0 && ch > 0 {
 								continue
 							}
-							cases = append(cases, c14Case{Entry: entry, RMU: rmu, PerIP: perip, Segs: h, End: end, Chunk: ch})
+							for _, conc := range concs {
+								cases = append(cases, c14Case{Entry: entry, RMU: rmu, PerIP: perip, Conc: conc, Segs: h, End: end, Chunk: ch})
+							}
 						}
 					}
 				}
